@@ -785,4 +785,7 @@ func genC08(tier string, rng *Rng) {
 			runOp([]string{"fstrav", "r", hx([]byte("/pre" + p))})
 		}
 	}
+
+	// ---- (12) trees that change between requests: compressed siblings, versions, restarts (c08seq.go)
+	genC08Seq(tier, rng)
 }
